@@ -2,7 +2,8 @@
    Only statements, each closed by `exact <lemma>`, followed by Print Assumptions.
    Strings are lists of code points; the model is Model/K8_BPE.v (the code as repaired for D14, D8, D5). *)
 From Coq Require Import ZArith List Bool Lia Sorted.
-From VZ Require Import Model.K8_BPE Proofs.K8_BPE_proofs Proofs.K8_BPE_train_proofs Proofs.K8_BPE_matrix_proofs.
+From VZ Require Import Model.K8_BPE Model.K8_BPE_select Proofs.K8_BPE_proofs Proofs.K8_BPE_train_proofs
+  Proofs.K8_BPE_matrix_proofs Proofs.K8_BPE_select_proofs.
 Import ListNotations.
 Open Scope Z_scope.
 
@@ -65,32 +66,35 @@ Theorem C09_budget : forall (OS : Type) sel_init sel_step X v mcc0 t,
 Proof. intros OS si ss X v mcc0 t Ht. exact (proj2 (proj2 (proj2 (train_replay_any OS si ss X v mcc0 t Ht)))). Qed.
 Print Assumptions C09_budget.
 
-(* WELL-FORMED: for every oracle that keeps an invariant [Inv] of its own state and only proposes pairs made of
-   codes that exist at that moment, training on strings of code points does not raise once a first pair is found,
-   its merge list is well formed and tokens_ is the token table of that merge list. *)
-Theorem C09_train_wf : forall (OS : Type) sel_init sel_step (Inv : OS -> Z -> nat -> Prop),
-  (forall X mcc st o, Forall (is_char mcc) (concat X) -> sel_init X mcc = (st, o) ->
-     Inv st mcc 0%nat /\ forall p, o = Some p -> is_char mcc (fst p) /\ is_char mcc (snd p)) ->
-  (forall st mcc k p enc st' o,
-     Inv st mcc k -> Forall (wf_code mcc k) (concat enc) -> wf_code mcc k (fst p) -> wf_code mcc k (snd p) ->
-     sel_step st p (mcc + 1 + Z.of_nat k) enc (map (contract (fst p) (snd p) (mcc + 1 + Z.of_nat k)) enc) = (st', o) ->
-     Inv st' mcc (S k) /\ forall q, o = Some q -> wf_code mcc (S k) (fst q) /\ wf_code mcc (S k) (snd q)) ->
+(* WELL-FORMED: for every oracle that keeps an invariant [Inv] of its own state (relative to the pending pair), does
+   not raise under it and only proposes pairs made of codes that exist at that moment, training on strings of code
+   points does not raise once a first pair is found, its merge list is well formed and tokens_ is the token table of
+   that merge list. *)
+Theorem C09_train_wf : forall (OS : Type) sel_init sel_step (Inv : OS -> Z -> nat -> Z * Z -> Prop),
+  (forall X mcc st p, Forall (is_char mcc) (concat X) -> sel_init X mcc = Ok (st, Some p) ->
+     Inv st mcc 0%nat p /\ is_char mcc (fst p) /\ is_char mcc (snd p)) ->
+  (forall st mcc k p enc,
+     Inv st mcc k p -> Forall (wf_code mcc k) (concat enc) -> wf_code mcc k (fst p) -> wf_code mcc k (snd p) ->
+     exists st' o,
+       sel_step st p (mcc + 1 + Z.of_nat k) enc (map (contract (fst p) (snd p) (mcc + 1 + Z.of_nat k)) enc) = Ok (st', o) /\
+       forall q, o = Some q -> Inv st' mcc (S k) q /\ wf_code mcc (S k) (fst q) /\ wf_code mcc (S k) (snd q)) ->
   forall X v mcc0 st p,
   Forall codepoints X ->
-  sel_init X (fitted_mcc X mcc0) = (st, Some p) ->
+  sel_init X (fitted_mcc X mcc0) = Ok (st, Some p) ->
   exists t, bpe_train OS sel_init sel_step X v mcc0 = Ok t /\ wf_merges (t_mcc t) (t_merges t) /\
             build_tokens (t_mcc t) (t_merges t) = Ok (t_tokens t).
 Proof. exact train_sound. Qed.
 Print Assumptions C09_train_wf.
 
-(* instance: any oracle (with any state) whose chosen pair occurs in the current encodings *)
+(* instance: any oracle (with any state) that does not raise and whose chosen pair occurs in the current encodings *)
 Theorem C09_train_wf_occurs : forall (OS : Type) sel_init sel_step,
-  (forall X mcc st a b, sel_init X mcc = (st, Some (a, b)) -> In a (concat X) /\ In b (concat X)) ->
+  (forall X mcc st a b, sel_init X mcc = Ok (st, Some (a, b)) -> In a (concat X) /\ In b (concat X)) ->
+  (forall st p c enc enc', exists st' o, sel_step st p c enc enc' = Ok (st', o)) ->
   (forall st p c enc enc' st' a b,
-     sel_step st p c enc enc' = (st', Some (a, b)) -> In a (concat enc') /\ In b (concat enc')) ->
+     sel_step st p c enc enc' = Ok (st', Some (a, b)) -> In a (concat enc') /\ In b (concat enc')) ->
   forall X v mcc0 st p,
   Forall codepoints X ->
-  sel_init X (fitted_mcc X mcc0) = (st, Some p) ->
+  sel_init X (fitted_mcc X mcc0) = Ok (st, Some p) ->
   exists t, bpe_train OS sel_init sel_step X v mcc0 = Ok t /\ wf_merges (t_mcc t) (t_merges t) /\
             build_tokens (t_mcc t) (t_merges t) = Ok (t_tokens t).
 Proof. exact train_sound_occurs. Qed.
@@ -113,9 +117,10 @@ Print Assumptions C09_fitted_lossless.
 
 (* end to end: train with an oracle whose choices occur in the encodings, then decode *)
 Theorem C09_fit_transform_lossless : forall (OS : Type) sel_init sel_step,
-  (forall X mcc st a b, sel_init X mcc = (st, Some (a, b)) -> In a (concat X) /\ In b (concat X)) ->
+  (forall X mcc st a b, sel_init X mcc = Ok (st, Some (a, b)) -> In a (concat X) /\ In b (concat X)) ->
+  (forall st p c enc enc', exists st' o, sel_step st p c enc enc' = Ok (st', o)) ->
   (forall st p c enc enc' st' a b,
-     sel_step st p c enc enc' = (st', Some (a, b)) -> In a (concat enc') /\ In b (concat enc')) ->
+     sel_step st p c enc enc' = Ok (st', Some (a, b)) -> In a (concat enc') /\ In b (concat enc')) ->
   forall X v mcc0 t, Forall codepoints X ->
   bpe_train OS sel_init sel_step X v mcc0 = Ok t ->
   (forall i s, nth_error X i = Some s ->
@@ -124,17 +129,52 @@ Theorem C09_fit_transform_lossless : forall (OS : Type) sel_init sel_step,
      exists e, bpe_encode (t_merges t) (t_mcc t) s = Ok e /\
                bpe_decode (t_tokens t) (t_mcc t) e = Ok (map (clamp (t_mcc t)) s)).
 Proof.
-  intros OS si ss Hi Hs X v mcc0 t HX Ht.
+  intros OS si ss Hi Htot Hs X v mcc0 t HX Ht.
   destruct (train_replay_any OS si ss X v mcc0 t Ht) as (Hmcc & Henc & _).
-  assert (Hsel : exists st p, si X (fitted_mcc X mcc0) = (st, Some p)).
+  assert (Hsel : exists st p, si X (fitted_mcc X mcc0) = Ok (st, Some p)).
   { unfold bpe_train in Ht. fold (fitted_mcc X mcc0) in Ht.
-    destruct (si X (fitted_mcc X mcc0)) as [st [p|]]; [eauto | discriminate]. }
+    destruct (si X (fitted_mcc X mcc0)) as [[st [p|]]|]; simpl in Ht; [eauto | discriminate | discriminate]. }
   destruct Hsel as (st & p & Hsel).
-  destruct (train_sound_occurs OS si ss Hi Hs X v mcc0 st p HX Hsel) as (t' & Ht' & Hwf & Hb).
+  destruct (train_sound_occurs OS si ss Hi Htot Hs X v mcc0 st p HX Hsel) as (t' & Ht' & Hwf & Hb).
   rewrite Ht in Ht'. inversion Ht'; subst t'.
   apply (fitted_lossless t X Hwf Hb Henc); [|exact HX]. rewrite Hmcc. apply fitted_mcc_ge.
 Qed.
 Print Assumptions C09_fit_transform_lossless.
+
+(* THE REAL SELECTION.  Model/K8_BPE_select.v models count_pairs, contract_and_count_pairs (array and pair_counts),
+   pruning_max_freq_pair with its tie-breaking and pruning, the min-count halving / recount and the acceptance test;
+   (impl_init min_count, impl_step) is that oracle, so [bpe_train sstate (impl_init mn) impl_step] models the whole
+   of bpe_train with nothing supplied by the implementation.
+   The array output of contract_and_count_pairs is contract_pair's for every dictionary: *)
+Theorem C09_cacp_refines : forall cl a b c d,
+  NoDup (pkeys d) -> exists d', cacp cl a b c d = Ok (contract a b c cl, d').
+Proof. exact cacp_array. Qed.
+Print Assumptions C09_cacp_refines.
+
+(* the selection never raises KeyError / IndexError in reachable states, only proposes existing codes, and training
+   with it succeeds with a well-formed merge list as soon as a first pair is found *)
+Theorem C09_train_impl_wf : forall mn X v mcc0 st p,
+  Forall codepoints X ->
+  impl_init mn X (fitted_mcc X mcc0) = Ok (st, Some p) ->
+  exists t, bpe_train sstate (impl_init mn) impl_step X v mcc0 = Ok t /\ wf_merges (t_mcc t) (t_merges t) /\
+            build_tokens (t_mcc t) (t_merges t) = Ok (t_tokens t).
+Proof. exact impl_train_sound. Qed.
+Print Assumptions C09_train_impl_wf.
+
+(* LOSSLESS AND REPRODUCIBLE, unconditionally for the modelled bpe_train: every corpus of strings of code points,
+   every max_vocab_size, min_token_occurrence, max_char_code *)
+Theorem C09_impl_lossless : forall mn X v mcc0 t,
+  Forall codepoints X ->
+  bpe_train sstate (impl_init mn) impl_step X v mcc0 = Ok t ->
+  wf_merges (t_mcc t) (t_merges t) /\ build_tokens (t_mcc t) (t_merges t) = Ok (t_tokens t) /\
+  transform_sequences t X = Ok (t_enc t) /\
+  (forall i s, nth_error X i = Some s ->
+     exists e, nth_error (t_enc t) i = Some e /\ bpe_decode (t_tokens t) (t_mcc t) e = Ok s) /\
+  (forall s, codepoints s ->
+     exists e, bpe_encode (t_merges t) (t_mcc t) s = Ok e /\
+               bpe_decode (t_tokens t) (t_mcc t) e = Ok (map (clamp (t_mcc t)) s)).
+Proof. exact impl_lossless. Qed.
+Print Assumptions C09_impl_lossless.
 
 (* 'tokens' output = the strings of the codes of the 'sequences' output; bpe_decode = their concatenation *)
 Theorem C09_tokens_of_sequences : forall toks mcc codes ts,
@@ -203,3 +243,10 @@ Example ex_matrix :
   matrix_fit [[100; 100]; []; [97]] = Ok (3, 2, [[(1, 2)]; []; [(0, 1)]]) /\
   matrix_transform [97; 100] [[100; 5; 100; 97]; [5]] = (2, 2, [[(0, 1); (1, 2)]; []]).
 Proof. vm_compute. split; reflexivity. Qed.
+
+(* the whole training model on a corpus with ties, pruning and several merges *)
+Example ex_train_impl :
+  exists t, bpe_train sstate (impl_init 1) impl_step
+              [[97; 98; 97; 98; 97; 98; 97; 98]; [99; 100; 99; 100; 99; 100]; [97]] 10 0 = Ok t /\
+            t_merges t = [(97, 98); (101, 101); (99, 100); (103, 103)] /\ t_enc t = [[102; 102]; [104; 103]; [97]].
+Proof. eexists. vm_compute. repeat split. Qed.
